@@ -69,6 +69,7 @@ fn run_one(cx: &Ctx<'_>, cfg: &NetCfg, ops: &[Op], prefix: &[usize], allow_dev: 
         ch.allow_drop = allow_dev;
         ch.allow_reorder = allow_dev;
         ch.allow_early_time = allow_dev;
+        ch.allow_burst = allow_dev;
         // scenario events: stop(node i) once per node, silence(node j) once per non-client node
         let n = cfg.n;
         let mut stop_task: Vec<Option<tokio::task::JoinHandle<Result<(), String>>>> = (0..n).map(|_| None).collect();
@@ -110,6 +111,11 @@ fn run_one(cx: &Ctx<'_>, cfg: &NetCfg, ops: &[Op], prefix: &[usize], allow_dev: 
                 Action::Deliver(f) => {
                     world.deliver(f.seq);
                 }
+                Action::DeliverBurst(fs) => {
+                    for f in fs {
+                        world.deliver(f.seq);
+                    }
+                }
                 Action::Drop(f) => world.drop_frame(f.seq),
                 Action::Advance => {
                     tokio::time::sleep(REQUEST_TIMEOUT).await;
@@ -137,9 +143,50 @@ fn run_one(cx: &Ctx<'_>, cfg: &NetCfg, ops: &[Op], prefix: &[usize], allow_dev: 
                 break;
             }
         }
+        // ---- epilogue (part of every execution): each node's DHT layer still answers a local query, and stop()
+        // on every node that was not stopped yet returns within its bound
+        let mut stuck_nodes: Vec<usize> = Vec::new();
+        if liveness_ok {
+            for i in 0..n {
+                let m = net.nodes[i].mgr.clone();
+                let probe = tokio::spawn(async move {
+                    let _ = m.find_closest_nodes_local(&[0u8; 32], 8).await;
+                    let _ = m.get_connected_peers().await;
+                });
+                settle().await;
+                settle().await;
+                if !probe.is_finished() {
+                    tokio::time::sleep(Duration::from_secs(1)).await;
+                }
+                if !probe.is_finished() {
+                    probe.abort();
+                    stuck_nodes.push(i);
+                }
+            }
+            for i in 0..n {
+                if stop_task[i].is_some() || stuck_nodes.contains(&i) {
+                    continue;
+                }
+                let m = net.nodes[i].mgr.clone();
+                stop_called_at[i] = Some(t0.elapsed());
+                world.note(format!("epilogue: stop() called on N{i}"));
+                let h = tokio::spawn(async move { m.stop().await.map_err(|e| e.to_string()) });
+                let mut c2 = Chooser::new(&[]);
+                let hh = &h;
+                let _ = drive(world, &mut c2, &|| hh.is_finished(), op_bound(), &|| vec![], &mut |_| {}, &mut |_| {}).await;
+                if h.is_finished() {
+                    stop_returned_at[i] = Some(t0.elapsed());
+                    stop_trace_idx[i] = Some(world.trace().len());
+                }
+                stop_task[i] = Some(h);
+            }
+        }
         cx.distinct.eval();
         let wit = |extra: Value| json!({"config": cfg.json(), "concurrent_ops": ops.iter().map(opj).collect::<Vec<_>>(), "schedule": prefix, "choices": ch.points.iter().filter(|p| p.chosen != 0).map(|p| p.desc.clone()).collect::<Vec<_>>(), "detail": extra, "trace": trace_json(&world.trace()[trace0..], &net.names)});
         let mut obs: Vec<String> = Vec::new();
+        for i in &stuck_nodes {
+            cx.run.violation_lazy("C20.live", feats(&[("op", "local-query-after-the-run".into()), ("shape", "node-state-lock-never-released".into())]), || (wit(json!({"node": i})), format!("N{i}: a local closest-node query blocks forever after the run (a lock on the node's peer state is never released)")));
+        }
         // liveness
         for (i, h) in hs.iter().enumerate() {
             if !h.is_finished() {
